@@ -5,13 +5,103 @@ call, the returned indices are unravelled from that unique flat index and the va
 (this is what makes index tuples unique and sorted); R05.2 ravel and unravel use the same axis lengths in opposite
 order; R05.3 unique() wires sorter, mask and inverse consistently; R05.4 the CSR tuple order of evaluable.as_csr
 agrees with its consumers (matrix.assemble_csr / assemble_block_csr / function.as_csr); R05.5 every _assparse
-override is verified in debug mode.  Not decided: the index arithmetic of the individual _assparse overrides.
+override is verified in debug mode; R05.6 the stride vector with which Inflate._assparse addresses the row-major flattened
+dof map is row-major (symbolic evaluation for 1..4 axes); R05.7 Multiply._assparse keeps its factor clusters pairwise
+axis-disjoint.  Not decided: the remaining index arithmetic of the individual _assparse overrides.
 '''
 
 import ast
 
 from sa import AnalysisError
 from sa.astutil import dotted, src, stmt_text, params, find_stmts, calls_in, method_name, const
+
+
+def _sym_tuple(e, shape):
+    """Symbolic value of a tuple-valued expression over the axis lengths `shape` (a list of monomials = sorted tuples of symbols)."""
+    if isinstance(e, ast.Attribute) and e.attr == 'shape':
+        return list(shape)
+    if isinstance(e, ast.Constant) and e.value == 1:
+        return ()
+    if isinstance(e, ast.Tuple) or isinstance(e, ast.List):
+        out = []
+        for x in e.elts:
+            if isinstance(x, ast.Starred):
+                out.extend(_sym_tuple(x.value, shape))
+            else:
+                out.append(_sym_tuple(x, shape))
+        return out
+    if isinstance(e, ast.Subscript) and isinstance(e.slice, ast.Slice):
+        base = _sym_tuple(e.value, shape)
+        def c(x):
+            if x is None:
+                return None
+            v = const(x) if not (isinstance(x, ast.UnaryOp) and isinstance(x.op, ast.USub)) else -const(x.operand)
+            if not isinstance(v, int):
+                raise AnalysisError(f'stride expression: slice bound `{src(x)}` is not a literal')
+            return v
+        return base[slice(c(e.slice.lower), c(e.slice.upper), c(e.slice.step))]
+    if isinstance(e, ast.Call):
+        f = src(e.func)
+        if f in ('tuple', 'list') and len(e.args) == 1:
+            return list(_sym_tuple(e.args[0], shape))
+        if f == 'reversed' and len(e.args) == 1:
+            return list(_sym_tuple(e.args[0], shape))[::-1]
+        if f in ('itertools.accumulate', 'accumulate') and len(e.args) == 2 and src(e.args[1]) in ('operator.mul', 'mul'):
+            acc, out = None, []
+            for x in _sym_tuple(e.args[0], shape):
+                acc = x if acc is None else tuple(sorted(acc + x))
+                out.append(acc)
+            return out
+    raise AnalysisError(f'stride expression `{src(e)[:60]}` uses a construct the symbolic evaluator does not know')
+
+
+def check_strides(model, rep):
+    """R05.6: Inflate._assparse addresses the row-major flattened dof map (_flat = repeated Ravel of the last two axes) with
+    sum(index_k * stride_k); the stride vector must be the row-major one, stride_k = product of the axis lengths after k.  The
+    stride expression is evaluated symbolically for dof maps of 1..4 axes."""
+    f = model.func('evaluable:Inflate._assparse')
+    flat = model.func('evaluable:_flat')
+    if not any(isinstance(c, ast.Call) and src(c.func) == 'Ravel' for c in ast.walk(flat.node)):
+        raise AnalysisError('evaluable._flat no longer flattens with Ravel (row-major): R05.6 needs review')
+    asg = [s_ for s_ in find_stmts(f.body, lambda s_: isinstance(s_, ast.Assign)) if src(s_.targets[0]) == 'strides']
+    uses = [c for c in calls_in(f.node) if src(c.func) == 'map' and len(c.args) == 3 and src(c.args[0]) in ('operator.mul', 'mul') and src(c.args[2]) == 'strides']
+    flats = [s_ for s_ in find_stmts(f.body, lambda s_: isinstance(s_, ast.Assign)) if isinstance(s_.value, ast.Call) and src(s_.value.func) == '_flat' and src(s_.value.args[0]) == 'self.dofmap']
+    if len(asg) != 1 or len(uses) != 1 or len(flats) != 1:
+        raise AnalysisError('Inflate._assparse: stride vector, its use or the flattened dof map not found')
+    bad = None
+    for n in range(1, 5):
+        shape = [(f's{k}',) for k in range(n)]
+        got = [tuple(x) for x in _sym_tuple(asg[0].value, shape)]
+        want = [tuple(sorted(sum((shape[j] for j in range(k + 1, n)), ()))) for k in range(n)]
+        if got != want:
+            bad = (n, got, want)
+            break
+    fmt = lambda v: '(' + ', '.join('*'.join(m) or '1' for m in v) + ')'
+    rep.ob('R05.6', f.key, f.where(asg[0]), bad is None, 'the stride vector of the flattened dof map is row-major for 1..4 axes (symbolic evaluation)' if bad is None else
+           f'for a dof map of {bad[0]} axes `{src(asg[0].value)[:70]}` evaluates to strides {fmt(bad[1])}; the row-major flattening of _flat needs {fmt(bad[2])}: the sparse values are scattered to the wrong dofs', statement='row-major-strides')
+
+
+def check_clusters(model, rep):
+    """R05.7: Multiply._assparse writes the product as a sum of products over clusters of factors and assigns every axis to ONE
+    cluster; that needs the clusters to be pairwise axis-disjoint, which the collection loop establishes by merging a new factor
+    with EVERY existing cluster it overlaps.  The scan over the existing clusters must therefore not end early and the merged
+    cluster is appended after the scan."""
+    f = model.func('evaluable:Multiply._assparse')
+    outer = [l for l in f.body if isinstance(l, ast.For) and src(l.iter) == 'self._factors']
+    if len(outer) != 1:
+        raise AnalysisError('Multiply._assparse: the loop over the factors was not found')
+    inner = [l for l in outer[0].body if isinstance(l, ast.For) and 'clusters' in src(l.iter)]
+    if len(inner) != 1:
+        raise AnalysisError('Multiply._assparse: the scan over the existing clusters was not found')
+    scan = inner[0]
+    merges = [i for i in scan.body if isinstance(i, ast.If) and '&' in src(i.test) or isinstance(i, ast.If) and 'isdisjoint' in src(i.test)]
+    early = [n for n in ast.walk(scan) if isinstance(n, (ast.Break, ast.Return))]
+    after = outer[0].body[outer[0].body.index(scan) + 1:]
+    appended = any(isinstance(c, ast.Call) and src(c.func) == 'clusters.append' for s_ in after for c in ast.walk(s_))
+    ok = bool(merges) and not early and appended
+    rep.ob('R05.7', f.key, f.where(early[0]) if early else f.where(scan), ok, 'a new factor is merged with every existing cluster it shares an axis with (no early exit), then appended: clusters stay pairwise axis-disjoint' if ok else
+           ('the scan over the existing clusters ends early: a factor that shares axes with two clusters fuses only one of them, the clusters are no longer axis-disjoint and the sum-of-products step assigns an axis twice '
+            '(silently wrong values, e.g. f1(i) f2(j) f3(i,j))' if early else 'the cluster collection loop lost its merge test or the append after the scan'), statement='clusters-disjoint')
 
 
 def run(model, rep, tier):
@@ -26,6 +116,8 @@ def run(model, rep, tier):
     rep.rule('R05.3', 'unique() wiring')
     rep.rule('R05.4', 'CSR tuple order agrees across modules')
     rep.rule('R05.5', '_assparse overrides are debug-verified')
+    rep.rule('R05.6', 'Inflate._assparse: stride vector of the flattened dof map is row-major (symbolic evaluation)')
+    rep.rule('R05.7', 'Multiply._assparse: factor clusters are kept pairwise axis-disjoint (full scan, then append)')
     A = model.cls('evaluable:Array')
     f = A.members['assparse'].func
     txt = src(f.node)
@@ -98,5 +190,7 @@ def run(model, rep, tier):
                f'{c.name}._assparse lost @verify_sparse_chunks', statement='verified')
     if n < 12:
         raise AnalysisError(f'only {n} _assparse implementations found')
+    check_strides(model, rep)
+    check_clusters(model, rep)
     rep.require('R05.1', 5)
     rep.require('R05.4', 6)
